@@ -208,8 +208,8 @@ def judge(rep, work, cases, label, shards=None):
         i, part = args
         path = work.path('%s-%d.json' % (label, i))
         with open(path, 'w') as fh:
-            json.dump([{'id': c['id'], 'text': cps(c['text']), 'rows': c['arows'], 'out': c['out'], 'sel': c['sel']}
-                       for c in part], fh)
+            json.dump([{'id': c['id'], 'text': cps(c['text']), 'rows': c['arows'], 'out': c['out'], 'sel': c['sel'],
+                        'k': c.get('k', 0)} for c in part], fh)
         return run_tlc(work, 'Trace_FilterLex.tla', 'Trace_FilterLex.cfg', workers=2, env={'TRACE_FILE': path},
                        xmx='3g')
     out = {}
@@ -343,3 +343,27 @@ def selftest(rep, work, cases):
     if missed:
         raise MachineryError('binding self-test: complemented selection accepted for %r' % missed[:3])
     return len(mut)
+
+
+def judge_recorded(rep, work):
+    """the Grid.filter calls of the repository's own tests (recorded by recplugin), judged like every other case"""
+    import rectest
+    rec, rc = rectest.record(work, filters=True, only=['tests/test_filter.py', 'tests/test_grid.py'])
+    calls = rec.get('filters', [])
+    for i, c in enumerate(calls):
+        c['id'] = i + 1
+    if not calls:
+        raise MachineryError('the recording run saw no Grid.filter call')
+    v = judge(rep, work, calls, 'recorded', shards=2)
+    stats = {'calls': len(calls)}
+    rej = []
+    for c in calls:
+        x = v[c['id']]
+        key = x[1] if x[0] == 'OK' else 'rejected'
+        stats[key] = stats.get(key, 0) + 1
+        if x[0] == 'REJECT':
+            c['allowed'] = x[2]
+            c['recipe'] = {'recorded': True}
+            c['rows_repr'] = []
+            rej.append((c, x[1]))
+    return stats, rej
